@@ -51,19 +51,28 @@ func (c *ServerCookie) Decode(b []byte) error {
 	pos := 0
 	algo, s2c, c2s := false, false, false
 	for pos < len(b) {
+		if len(b)-pos < 4 {
+			return errUnexpectedCookieData
+		}
 		t := binary.BigEndian.Uint16(b[pos:])
-		len := binary.BigEndian.Uint16(b[pos+2:])
+		l := binary.BigEndian.Uint16(b[pos+2:])
+		if int(l) > len(b)-pos-4 {
+			return errUnexpectedCookieData
+		}
 		if t == cookieTypeAlgorithm {
+			if l < 2 {
+				return errUnexpectedCookieData
+			}
 			c.Algo = binary.BigEndian.Uint16(b[pos+4:])
 			algo = true
 		} else if t == cookieTypeKeyS2C {
-			c.S2C = b[pos+4 : pos+4+int(len)]
+			c.S2C = b[pos+4 : pos+4+int(l)]
 			s2c = true
 		} else if t == cookieTypeKeyC2S {
-			c.C2S = b[pos+4 : pos+4+int(len)]
+			c.C2S = b[pos+4 : pos+4+int(l)]
 			c2s = true
 		}
-		pos += 4 + int(len)
+		pos += 4 + int(l)
 	}
 	if pos != len(b) {
 		return errUnexpectedCookieData
@@ -103,19 +112,28 @@ func (c *EncryptedServerCookie) Decode(b []byte) error {
 	pos := 0
 	id, nonce, ciphertext := false, false, false
 	for pos < len(b) {
+		if len(b)-pos < 4 {
+			return errUnexpectedCookieData
+		}
 		t := binary.BigEndian.Uint16(b[pos:])
-		len := binary.BigEndian.Uint16(b[pos+2:])
+		l := binary.BigEndian.Uint16(b[pos+2:])
+		if int(l) > len(b)-pos-4 {
+			return errUnexpectedCookieData
+		}
 		if t == cookieTypeKeyID {
+			if l < 2 {
+				return errUnexpectedCookieData
+			}
 			c.ID = binary.BigEndian.Uint16(b[pos+4:])
 			id = true
 		} else if t == cookieTypeNonce {
-			c.Nonce = b[pos+4 : pos+4+int(len)]
+			c.Nonce = b[pos+4 : pos+4+int(l)]
 			nonce = true
 		} else if t == cookieTypeCiphertext {
-			c.Ciphertext = b[pos+4 : pos+4+int(len)]
+			c.Ciphertext = b[pos+4 : pos+4+int(l)]
 			ciphertext = true
 		}
-		pos += 4 + int(len)
+		pos += 4 + int(l)
 	}
 	if pos != len(b) {
 		return errUnexpectedCookieData
